@@ -177,7 +177,7 @@ def impl_part(ck, tier):
     scen = []
     base3 = dict(temps=[1, 2, 4], starts=[[-3, 4], [4, -3], [0, 1]], kind="gibbs", display=True)
     prog3 = [["steps", 3], ["swap"], ["advance", 23, 5], ["swap"], ["return"], ["steps", 2], ["swap"], ["return"], ["shutdown"]]
-    scen.append(("n3", dict(base3, prog=prog3, seed=s + 1)))
+    scen.append(("n3", dict(base3, prog=prog3, seed=s + 1, prelude=True)))       # (preceded by another, finished tempering run in the same interpreter)
     scen.append(("n3_accept", dict(base3, prog=[["steps", 2], ["swap"], ["return"], ["swap"], ["steps", 1], ["return"], ["shutdown"]],
                                    seed=s + 2, force="accept")))
     scen.append(("n2", dict(temps=[1, 4], starts=[[-3], [4]], kind="gibbs", display=True, seed=s + 3,
@@ -198,6 +198,10 @@ def impl_part(ck, tier):
     # a ladder that is not sorted by temperature (allowed, warned about): every chain keeps its own temperature in the exchange rule
     scen.append(("n3_unsorted", dict(temps=[4, 1, 2], starts=[[-3, 4], [4, -3], [0, 1]], kind="gibbs", display=False, seed=s + 11, force="edge",
                                      prog=[["steps", 1], ["swap"], ["steps", 1], ["swap"], ["steps", 1], ["swap"], ["swap"], ["return"], ["shutdown"]])))
+    # every draw ON the acceptance threshold of the pair it decides (pairs two levels apart included)
+    scen.append(("n3_threshold", dict(base3, seed=s + 12, force="threshold", display=False,
+                                      prog=[["steps", 1], ["swap"], ["steps", 2], ["swap"], ["steps", 1], ["swap"], ["steps", 2], ["swap"], ["swap"], ["steps", 1], ["swap"],
+                                            ["return"], ["shutdown"]])))
     if tier == "thorough":
         scen.append(("n5_pca", dict(temps=[1, 1, 2, 4, 4], starts=[[-3, 4], [4, -3], [0, 1], [3, 3], [-2, -2]], kind="pca", display=True,
                                     seed=s + 6, prog=[["advance", 64, 7], ["return"], ["advance", 5, 10], ["return"], ["shutdown"]])))
